@@ -914,6 +914,13 @@ func typeAssert(i *interpreter, instr *ssa.TypeAssert, itf iface) value {
 		v = itf
 		if meth, _ := types.MissingMethod(itf.t, idst, true); meth != nil {
 			err = "missing"
+			// the model's reflect.rtype / error stand-ins implement reflect.Type / error
+			if n, ok := instr.AssertedType.(*types.Named); ok && n.Obj().Pkg() != nil && n.Obj().Pkg().Path() == "reflect" && n.Obj().Name() == "Type" && itf.t == types.Type(rtypeType) {
+				err = ""
+			}
+			if itf.t == types.Type(rtypeType) && idst.NumMethods() == 0 {
+				err = ""
+			}
 		}
 	} else if itf.t == instr.AssertedType || types.Identical(itf.t, instr.AssertedType) {
 		v = itf.v // extract value
